@@ -19,11 +19,11 @@
    transcoding Encoder is in low resolution, so coordinates in [-128,128) go to the nearest 1/64);
    decoded_coordinates_stable — a decoded coordinate is a fixed point of write-and-read-back up to the sign
    of zero, so transcoding again changes nothing more.
-   Residual hypothesis of encode_decode: the viewBox must be valid as written (viewbox_invalid (qvb vb) = false);
-   that a valid viewBox stays valid under the 4-byte rounding (monotonicity of the rounding) is proved only for
-   viewBoxes that come out of the decoder (qvb_valid), not for arbitrary float viewBoxes. *)
+   encode_decode is stated for a viewBox that is valid as written; qvb_valid_any (proofs/VbMono.v: the 4-byte
+   rounding is monotone in the value and fixes every short-form value) shows that every valid viewBox is, so
+   encode_decode_valid needs only "finite valid viewBox", as the property says. *)
 From Coq Require Import ZArith Bool List.
-From IVG Require Import SF NumCodec Color Calls Decoder Encoder NumBase NumProofs ColorProofs DecProofs EncProofs RoundTrip MetaRT Transcode.
+From IVG Require Import SF NumCodec Color Calls Decoder Encoder NumBase NumProofs ColorProofs DecProofs EncProofs RoundTrip MetaRT Transcode VbMono.
 Import ListNotations.
 Local Open Scope Z_scope.
 
@@ -33,6 +33,22 @@ Theorem encode_decode : forall e0 vb pal body,
             decode_calls [] b = (CReset (m_vb (meta_of vb pal)) pal :: expect false false body, Done).
 Proof. exact MetaRT.encode_decode. Qed.
 Print Assumptions encode_decode.
+
+Theorem qvb_valid_any : forall v, wf_vb v -> viewbox_invalid v = false -> viewbox_invalid (qvb v) = false.
+Proof. exact VbMono.qvb_valid_any. Qed.
+Print Assumptions qvb_valid_any.
+
+Theorem encode_decode_valid : forall e0 vb pal body,
+  wf_vb vb -> viewbox_invalid vb = false -> wf_pal pal -> wf_acts false body ->
+  exists b, snd (enc_bytes (fst (enc_run e0 (ACall (CReset vb pal) :: body)))) = BytesOk b /\
+            decode_calls [] b = (CReset (m_vb (meta_of vb pal)) pal :: expect false false body, Done).
+Proof. exact VbMono.encode_decode_valid. Qed.
+Print Assumptions encode_decode_valid.
+
+Theorem q_coord_mono : forall a b, wf_f32 a -> wf_f32 b -> is_finite F32 a = true -> is_finite F32 b = true ->
+  ival32 a <= ival32 b -> ival32 (q_coord a) <= ival32 (q_coord b).
+Proof. exact VbMono.q_coord_mono. Qed.
+Print Assumptions q_coord_mono.
 
 Theorem q_coord_spec : forall f, wf_f32 f ->
   (exists i, coord_short1 f = Some i /\ q_coord f = of_Z F32 i /\ feq F32 (q_coord f) f = true) \/
